@@ -87,19 +87,30 @@ func TestC08MainWiring(t *testing.T) {
 			if overTLS {
 				addr = tlsAddr
 			}
-			raw, err := net.DialTimeout("tcp", addr, 3*time.Second)
-			if err != nil {
-				t.Fatalf("VERIF-INCONCLUSIVE dial: %v", err)
-			}
-			raw.SetDeadline(time.Now().Add(10 * time.Second))
-			var c net.Conn = raw
-			if overTLS {
-				tc := tls.Client(raw, &tls.Config{InsecureSkipVerify: true, ServerName: "localhost"})
-				if err := tc.Handshake(); err != nil {
-					raw.Close()
-					t.Fatalf("TLS handshake: %v", err)
+			var c net.Conn
+			// (a TLS listener is open a moment before its certificate store has been filled: the
+			// handshake is tried again for a while, whatever then remains is not this property's business)
+			for attempt := 0; ; attempt++ {
+				raw, err := net.DialTimeout("tcp", addr, 3*time.Second)
+				if err != nil {
+					t.Fatalf("VERIF-INCONCLUSIVE dial: %v", err)
 				}
-				c = tc
+				raw.SetDeadline(time.Now().Add(10 * time.Second))
+				c = raw
+				if !overTLS {
+					break
+				}
+				tc := tls.Client(raw, &tls.Config{InsecureSkipVerify: true, ServerName: "localhost"})
+				err = tc.Handshake()
+				if err == nil {
+					c = tc
+					break
+				}
+				raw.Close()
+				if attempt >= 60 {
+					t.Fatalf("VERIF-INCONCLUSIVE TLS handshake: %v", err)
+				}
+				time.Sleep(50 * time.Millisecond)
 			}
 			var b strings.Builder
 			b.WriteString("GET /x HTTP/1.1\r\nHost: example.com\r\nConnection: close\r\n")
